@@ -204,9 +204,10 @@ class SymExec:
                 if isinstance(n.value, ast.Name) and isinstance(env.get(n.value.id), ast.Name) and \
                    env[n.value.id].id.startswith('_obj') and '%s.%s' % (env[n.value.id].id, n.attr) in env:
                     return env['%s.%s' % (env[n.value.id].id, n.attr)]      # a field of a record held in a name
-                if isinstance(n.value, ast.Name) and n.value.id in ('self', 'cls') and n.value.id not in env and \
-                   n.attr in self.class_consts:
-                    return self.class_consts[n.attr]
+                if isinstance(n.value, ast.Name) and n.value.id in ('self', 'cls') and n.value.id not in env:
+                    cc_ = self._class_consts_for_receiver()
+                    if n.attr in cc_:
+                        return cc_[n.attr]
             if self.bind_loops and isinstance(n, (ast.GeneratorExp, ast.ListComp)) and len(n.generators) == 1 \
                and not n.generators[0].ifs:
                 # element of a comprehension as an expression of the iterable: _each(elt[target := ITER[_k]])
@@ -537,6 +538,29 @@ class SymExec:
             val = copy_replace(v_, lambda n_: attr.value if isinstance(n_, ast.Name) and n_.id == sn else None)
             cs = tuple((_re.sub(r'\b%s\b' % sn, lambda mo: rtxt, t_) if isinstance(t_, str) else t_, b_) for t_, b_ in conds)
             out.append((simplify(val), cs))
+        return out
+
+    def _class_consts_for_receiver(self):
+        """class constants as the object the method is walked for sees them: those of its own class first, then of
+        the classes it inherits from (a template method in a base class reads `self.kind_name` of the subclass)"""
+        if not self.self_cls:
+            return self.class_consts
+        cached = self.__dict__.get('_cc_recv')
+        if cached is not None and cached[0] == self.self_cls:
+            return cached[1]
+        out = {}
+        ci = self.ctx.model.classes.get(self.self_cls)
+        for k in reversed(ci.mro if ci is not None else []):
+            out.update(class_constants(self.ctx, k))
+        # a name the subclass re-binds to something that is not a constant hides the base constant
+        for k in (ci.mro if ci is not None else []):
+            for st in getattr(k, 'node', ast.Module(body=[], type_ignores=[])).body:
+                if isinstance(st, ast.Assign) and len(st.targets) == 1 and isinstance(st.targets[0], ast.Name):
+                    nm = st.targets[0].id
+                    if nm in out and nm not in class_constants(self.ctx, k) and \
+                            all(nm not in class_constants(self.ctx, k2) for k2 in ci.mro[:ci.mro.index(k)]):
+                        out.pop(nm, None)
+        self._cc_recv = (self.self_cls, out)
         return out
 
     def _fold_property_calls(self, v):
@@ -1959,6 +1983,15 @@ def simplify(e):
         if isinstance(n, ast.Call) and isinstance(n.func, ast.Name) and n.func.id == 'iter' and len(n.args) == 1 and \
            not n.keywords and isinstance(n.args[0], (ast.List, ast.Tuple)):
             return n.args[0]
+        # a kind name written out from a table row compared with a kind name: 'scale' != 'scale'
+        if isinstance(n, ast.Compare) and len(n.ops) == 1 and isinstance(n.ops[0], (ast.Eq, ast.NotEq)) and \
+           isinstance(n.left, ast.Constant) and isinstance(n.comparators[0], ast.Constant) and \
+           isinstance(n.left.value, str) and isinstance(n.comparators[0].value, str):
+            eq_ = n.left.value == n.comparators[0].value
+            return ast.Constant(value=eq_ if isinstance(n.ops[0], ast.Eq) else not eq_)
+        if isinstance(n, ast.Call) and isinstance(n.func, ast.Name) and n.func.id == 'int' and len(n.args) == 1 and \
+           not n.keywords and isinstance(n.args[0], ast.Constant) and isinstance(n.args[0].value, bool):
+            return ast.Constant(value=int(n.args[0].value))
         if isinstance(n, ast.Subscript) and isinstance(n.slice, ast.BinOp) and isinstance(n.slice.op, (ast.Add, ast.Sub)) \
            and isinstance(n.slice.left, ast.Constant) and isinstance(n.slice.right, ast.Constant) and \
            isinstance(n.slice.left.value, int) and isinstance(n.slice.right.value, int):
